@@ -3,11 +3,17 @@ From Coq Require Import List NArith Bool String.
 From YV Require Import Model.Binary Gen.Tables Proofs.SpellingProofs Model.TypeSyntax Proofs.TypeSyntaxProofs.
 Import ListNotations.
 
-(* the alias table of the CURRENT sources (types.go:primitiveTypes, regenerated on every run): alias names
+(* the alias table of the CURRENT front end (what it resolves each candidate name to, observed on every run): alias names
    are distinct from each other and from the primitive names, so a name denotes one primitive only *)
 Theorem C13_alias_names_unambiguous : NoDup (map fst prim_aliases ++ prim_names).
 Proof. exact alias_names_unambiguous. Qed.
 Print Assumptions C13_alias_names_unambiguous.
+
+(* every primitive alias means, to the current front end (observed on a probe model on every run), what the documentation
+   says it means - and there is no alias the documentation does not list *)
+Theorem C13_aliases_are_the_documented_ones : same_alias_table prim_aliases doc_aliases = true.
+Proof. exact observed_aliases_are_documented. Qed.
+Print Assumptions C13_aliases_are_the_documented_ones.
 
 (* the expanded spelling of every type expression (any nesting of name<args>, ?, *n, [dims], ->) is given the same type
    as its short spelling by the front end (Model.TypeSyntax: convertType / applyTypeTail / itemCases and Unmarshal*YAML,
